@@ -4,6 +4,9 @@ Engine P.  One case = one Coxeter matrix with one way of writing infinity, one c
 (matrix / diagram) and one naming style; inside the case every representation the API offers is built
 fresh (geometric, canonical, both diagonalised, Cartan-matrix representations, Tits-Vinberg, hyperbolic)
 and compared with the cosine form / signature computed by the oracle (mc/oracle/coxeter_words.py).
+Groups whose cosine form is DEGENERATE (affine groups, infinite dihedral group, (2,2,inf), ...) are asked for the diagonalised
+geometric / canonical representation as well (kinds geometric-diag/degenerate-form, canonical-diag/degenerate-form: relations,
+form diag(-1.., 0.., +1..) preserved, conjugate of the undiagonalised representation).
 Two more constructor configurations run the same comparison: "matrix-owned" (the caller keeps the ndarray /
 nested list it passed as matrix= and afterwards leaves it alone, overwrites it with another Coxeter matrix
 or with arbitrary integers: the group must keep the labels it was built from, and no call may write into
@@ -280,6 +283,20 @@ def case_group(case):
 
     # ---- which representations the API offers for this group, and how each is requested
     diag_ok = null == 0 and clear
+    # a DEGENERATE cosine form (affine groups, the infinite dihedral group, (2,2,inf), ...): the form cannot be brought to a
+    # diagonal of +-1, the diagonalised representation is still a representation (a conjugate of the undiagonalised one)
+    deg_ok = null > 0 and clear
+    DEG = "/degenerate-form"
+
+    def guarded(kind, f):
+        # these two requests must not take the rest of the case with them
+        def g():
+            try:
+                return f()
+            except Exception as e:  # noqa: BLE001 - converted into a violation
+                V.add("%s/exception/%s" % (kind, type(e).__name__), "%s: %s" % (type(e).__name__, str(e)[:200]))
+                return None
+        return g
     hyp_ok = clear and neg == 1 and null == 0 and pos == n - 1 and n >= 3
     C0 = 2.0 * B
     d = np.array([1.0 + 0.5 * i for i in range(n)])
@@ -331,6 +348,8 @@ def case_group(case):
         ("canonical", True, lambda: G.canonical_representation(), names),
         ("geometric-diag", diag_ok, lambda: G.geometric_representation(diagonalize=True), names),
         ("canonical-diag", diag_ok, lambda: G.canonical_representation(diagonalize=True), names),
+        ("geometric-diag" + DEG, deg_ok, guarded("geometric-diag" + DEG, lambda: G.geometric_representation(diagonalize=True)), names),
+        ("canonical-diag" + DEG, deg_ok, guarded("canonical-diag" + DEG, lambda: G.canonical_representation(diagonalize=True)), names),
         ("cartan", True, lambda: G.cartan_representation(mine["cartan"]), names),
         ("cartan-nonsymmetric", True, lambda: G.cartan_representation(mine["cartan-nonsymmetric"]), names),
         ("cartan-renamed", True, lambda: G.cartan_representation(mine["cartan-renamed"], rename_generators=True, generator_style=other),
@@ -374,6 +393,8 @@ def case_group(case):
         owned(k)
 
     def gens_of(k):
+        if reps[k] is None:
+            return None
         nms = names_of[k]
         sgl = all(len(x) == 1 for x in nms)
         return [mat(reps[k][W((i,), nms, sgl)]) for i in range(n)]
@@ -410,11 +431,11 @@ def case_group(case):
 
     # ---- diagonalised variants (only for a non-degenerate form: the documented target is a
     #      diagonal form with unit-modulus entries)
-    def diag_form_checks(tag, R, nneg, npos, ref):
-        """relations, M^T D M = D for D = diag(-1 x nneg, +1 x npos), same traces as the undiagonalised
+    def diag_form_checks(tag, R, nneg, npos, ref, nnull=0):
+        """relations, M^T D M = D for D = diag(-1 x nneg, 0 x nnull, +1 x npos), same traces as the undiagonalised
         representation `ref` (dict word -> matrix)"""
         nonlocal t
-        D = np.diag([-1.0] * nneg + [1.0] * npos)
+        D = np.diag([-1.0] * nneg + [0.0] * nnull + [1.0] * npos)
         _, tt = relation_checks(V, tag, R, nm, names, single, False)
         t += tt
         out = {}
@@ -444,6 +465,34 @@ def case_group(case):
             V.num("canonical-diag/dual-of-geometric", float(np.max(np.abs(C - want))), 1e-8 * scale_of([want]) ** 2,
                   "word %r" % (w,))
         o_diag = "D"
+    if deg_ok:
+        o_diag = "N"
+        gdr, cdr = reps["geometric-diag" + DEG], reps["canonical-diag" + DEG]
+        gd = None
+        if gdr is not None:
+            # order_eigenvalues="signed": ascending eigenvalues, the kernel between the negative and the positive directions
+            gd = diag_form_checks("geometric-diag" + DEG, gdr, neg, pos, gw, nnull=null)
+            # a conjugate of the geometric representation, not a quotient of it: the powers of the Coxeter element (the
+            # translations of an affine group) keep the rank of M - I
+            cox_w = tuple(range(n))
+            for k in (1, 2, 3, 4):
+                w = cox_w * k
+                M, M0 = mat(gdr[W(w, names, single)]), mat(geo[W(w, names, single)])
+                t += 2
+                rk = [int(np.sum(np.linalg.svd(X - I, compute_uv=False) > 1e-6 * scale_of([X]))) for X in (M, M0)]
+                if rk[0] != rk[1]:
+                    V.add("geometric-diag" + DEG + "/conjugate-of-geometric/rank", "Coxeter element to the power %d: rank(M - I) = %d, "
+                          "undiagonalised %d" % (k, rk[0], rk[1]))
+        if cdr is not None:
+            _, tt = relation_checks(V, "canonical-diag" + DEG, cdr, nm, names, single, True)
+            t += tt
+            for w in (words3 if gd is not None else []):
+                C = mat(cdr[W(w, names, single)])
+                t += 1
+                if abs(np.linalg.det(gd[w])) > 1e-6:
+                    want = np.linalg.inv(gd[w]).T
+                    V.num("canonical-diag" + DEG + "/dual-of-geometric", float(np.max(np.abs(C - want))), 1e-8 * scale_of([want]) ** 2,
+                          "word %r" % (w,))
 
     # ---- Cartan-matrix representations
     for tag in ("cartan", "cartan-nonsymmetric", "cartan-renamed", "cartan-renamed-own-style", "cartan-renamed-own-style-diag",
@@ -521,6 +570,8 @@ def case_group(case):
         reps[k] = request[k]()
         t += 1
         again = gens_of(k)
+        if again is None or first[k] is None:
+            continue
         sc = scale_of(first[k] + again)
         err = max(float(np.max(np.abs(a - b))) for a, b in zip(first[k], again))
         V.num("repeat/%s" % k.split("/")[0], err, 1e-9 * sc,
@@ -786,8 +837,14 @@ def run(ctx):
                "container it passed as matrix= (or with arrays returned by bilinear_form / cartan_matrix) does not change the group")
     ctx.assume("diagram= together with matrix=: the diagram defines the group (constructor docstring: generator_style 'is ignored if a "
                "diagram is specified'; warning text 'ignoring Coxeter matrix and constructing from diagram'); the warning is suppressed")
-    ctx.assume("diagonalize=True is requested only when the oracle's cosine form is non-degenerate (all |eigenvalues| "
-               "> 1e-6): the documented target is a diagonal form with unit-modulus entries")
+    ctx.assume("diagonalize=True for a non-degenerate cosine form (all |eigenvalues| > 1e-6): the documented target is a diagonal form "
+               "with unit-modulus entries (kinds geometric-diag, canonical-diag, cartan-*-diag).  For a DEGENERATE cosine form (null "
+               "eigenvalues <= 1e-9 in the oracle, the others > 1e-6: affine groups, infinite dihedral group, (2,2,inf), ...) "
+               "geometric_representation / canonical_representation(diagonalize=True) are requested as kinds "
+               "geometric-diag/degenerate-form, canonical-diag/degenerate-form: involutions, braid relations, exact orders (canonical), "
+               "M^T D M = D for D = diag(-1 x neg, 0 x null, +1 x pos) (utils.diagonalize_form: 'W^T B W = D with the same signature as B', "
+               "signed order), same traces as the undiagonalised representation (words of length <= Lw) and the same rank of M - I "
+               "on the powers 1..4 of the Coxeter element; an exception of these two requests is reported as <kind>/exception/<Type> and the case goes on")
     ctx.assume("tits_vinberg_rep(parameters, diagonalize=True) is requested only when every infinite label of the matrix is written "
                "negative (cartan_matrix documents free parameters for those entries) and the harness's deformed symmetric Cartan matrix "
                "has all |eigenvalues| > 1e-3; cartan_representation(S C S, diagonalize=True) only for a non-degenerate cosine form")
